@@ -268,8 +268,11 @@ func (rn *runner) one(raw json.RawMessage, r *core.Rand) {
 func Run(ctx *core.Ctx) {
 	ctx.SetRule("(hs) batches of 8-64 concurrent CONNECT+TLS handshakes against a fresh proxy (cache size 1-4, cache TTL / certificate validity of 1-2 s or 1 h) " +
 		"over 1-6 authorities (DNS names in any case, IPv4, bracketed IPv6, any port) with SNI same / absent / different / other case, repeated in 2-3 phases " +
-		"separated by a sleep past the shorter of TTL and validity; a handshake is non-trivial when the name is an IP literal, the SNI is absent or differs from " +
-		"the CONNECT host, the host has upper-case letters, or it happens after the sleep; (origin) one request inside an intercepted session to a scripted TLS origin " +
+		"separated by a sleep past the shorter of TTL and validity; one DNS name in five (SNI and CONNECT host alike) has a total length at a limit (62-66, 100, 127-129, 180, 200, 252, 253) " +
+		"or anywhere in 40-253, in labels of 63 / 62 / 1-3 / 1 / mixed length, lower / upper / mixed case; swept every run: 32 batches asking names of 63, 64, 65, 127, 128, 200, 253 characters " +
+		"as SNI, as CONNECT host (also with a trailing dot), as both and as two different names twice on one proxy, and pairs of names that agree in their first 63-252 characters " +
+		"alternately on a cache of one entry and with their prefix on a cache of four; a handshake is non-trivial when the name is an IP literal, the SNI is absent or differs from " +
+		"the CONNECT host, the host has upper-case letters, the requested name is longer than 63 characters, or it happens after the sleep; (origin) one request inside an intercepted session to a scripted TLS origin " +
 		"addressed by DNS name / IPv4 literal / bracketed IPv6 literal (default port, :443, :8443) that presents a valid (IP SAN for literals) / expired / " +
 		"wrong-name (other DNS name) / wrong-address (other IP SAN) / literal-spelled-as-dNSName / untrusted-CA certificate, extra CA through CACertFiles, " +
 		"insecure mode off or on, client X-Forwarded-Proto absent / https / http — the full cross product addressing × certificate × insecure every run, the rest drawn; " +
@@ -308,6 +311,13 @@ func Run(ctx *core.Ctx) {
 			ctx.Sample(b)
 		}
 		batches = append(batches, job{enc(b), r})
+	}
+	// names of every length, every run
+	for i, b := range sweepLong(ctx.Rng.Sub()) {
+		if i == 2 {
+			ctx.Sample(b)
+		}
+		batches = append(batches, job{enc(b), ctx.Rng.Sub()})
 	}
 	for _, c := range sweepOrigins(ctx.Rng.Sub()) {
 		light = append(light, job{enc(c), ctx.Rng.Sub()})
